@@ -139,7 +139,13 @@ func (ex *Exec) step(st *State, in ssa.Instruction) []*State {
 	case *ssa.Index:
 		x := ex.val(st, v.X)
 		idx := ex.scalar(st, v.Index)
-		if x.K == KArray {
+		if x.K == KArray && x.T.Sort == SBytes {
+			n := v.X.Type().Underlying().(*types.Array).Len()
+			ex.safety(st, "index", And(Le(IntLit(0), idx), Lt(idx, IntLit(n))), v, "array index in range")
+			t := ex.define(st, v.Name(), App(SInt, "f_bget", x.T, idx))
+			st.assume(And(Le(IntLit(0), t), Lt(t, IntLit(256))))
+			st.vals[v] = Scalar(t)
+		} else if x.K == KArray {
 			n := v.X.Type().Underlying().(*types.Array).Len()
 			ex.safety(st, "index", And(Le(IntLit(0), idx), Lt(idx, IntLit(n))), v, "array index in range")
 			st.vals[v] = Scalar(ex.define(st, v.Name(), Select(x.T, idx)))
@@ -159,12 +165,15 @@ func (ex *Exec) step(st *State, in ssa.Instruction) []*State {
 			panic(unsupported("phi without matching predecessor"))
 		}
 	case *ssa.MakeClosure:
-		if len(v.Bindings) > 0 {
-			panic(unsupported("closure capturing variables"))
+		// captured variables are held as the closure's bindings (pointers to the
+		// enclosing function's cells)
+		sv := SV{K: KFunc, Fn: v.Fn.(*ssa.Function)}
+		for _, b := range v.Bindings {
+			sv.Tuple = append(sv.Tuple, ex.val(st, b))
 		}
-		st.vals[v] = SV{K: KFunc, Fn: v.Fn.(*ssa.Function)}
+		st.vals[v] = sv
 	case *ssa.RunDefers:
-		ex.runDefers(st, v)
+		return ex.runDefers(st, v)
 	case *ssa.Defer:
 		ex.stepDefer(st, v)
 	case *ssa.Go:
@@ -202,9 +211,44 @@ func (ex *Exec) stepAlloc(st *State, v *ssa.Alloc) {
 		st.vals[v] = SV{K: KPtr, Ptr: &Pointer{Kind: PCell, Cell: v}}
 		return
 	}
+	if n, ok := byteArrayLen(et); ok {
+		// a local [N]byte is a block of N bytes in the byte heap; the cell keeps the
+		// (never changing) view of the whole block, so indexing, slicing and calls
+		// that take a slice of it all go through the ordinary slice rules
+		r := ex.allocRef(st)
+		st.heap["BMem"] = ex.define(st, "BMem", Store(st.heap["BMem"], r, App(SBytes, "f_zeros", IntLit(n))))
+		st.cells[v] = SV{K: KSlice, Elem: "byte", Ref: r, Off: IntLit(0), Len: IntLit(n), Cap: IntLit(n), Why: "bytearray"}
+		st.vals[v] = SV{K: KPtr, Ptr: &Pointer{Kind: PCell, Cell: v}}
+		return
+	}
 	z := ex.zeroOfType(st, et)
 	st.cells[v] = z
 	st.vals[v] = SV{K: KPtr, Ptr: &Pointer{Kind: PCell, Cell: v}}
+}
+
+// byteArrayLen: t is [N]byte (possibly named).
+func byteArrayLen(t types.Type) (int64, bool) {
+	at, ok := t.Underlying().(*types.Array)
+	if !ok {
+		return 0, false
+	}
+	b, ok := at.Elem().Underlying().(*types.Basic)
+	if !ok || b.Kind() != types.Uint8 {
+		return 0, false
+	}
+	return at.Len(), true
+}
+
+// byteBlock: the cell of a local [N]byte (see stepAlloc).
+func (ex *Exec) byteBlock(st *State, x SV) (SV, bool) {
+	if x.K != KPtr || x.Ptr.Kind != PCell {
+		return SV{}, false
+	}
+	c, ok := st.cells[x.Ptr.Cell]
+	if !ok || c.K != KSlice || c.Why != "bytearray" {
+		return SV{}, false
+	}
+	return c, true
 }
 
 func (ex *Exec) stepStore(st *State, v *ssa.Store) {
@@ -214,6 +258,14 @@ func (ex *Exec) stepStore(st *State, v *ssa.Store) {
 		panic(unsupported("store through non-pointer"))
 	}
 	p := addr.Ptr
+	if blk, ok := ex.byteBlock(st, addr); ok {
+		// *arr = value: the block's bytes are replaced, the block stays where it is
+		if val.K != KArray || val.T.Sort != SBytes {
+			panic(unsupported("store of an unsupported value into a byte array"))
+		}
+		ex.writeBytes(st, blk, val.T, v)
+		return
+	}
 	switch p.Kind {
 	case PCell:
 		st.cells[p.Cell] = val
@@ -259,7 +311,6 @@ func (ex *Exec) stepStore(st *State, v *ssa.Store) {
 			arr := Select(st.heap["SMem"], b.Ref)
 			st.heap["SMem"] = ex.define(st, "SMem", Store(st.heap["SMem"], b.Ref, Store(arr, Add(b.Off, p.Idx), val.T)))
 		case "byte":
-			ex.declareFun("f_bset", []string{SBytes, SInt, SInt}, SBytes)
 			mem := Select(st.heap["BMem"], b.Ref)
 			st.heap["BMem"] = ex.define(st, "BMem", Store(st.heap["BMem"], b.Ref, App(SBytes, "f_bset", mem, Add(b.Off, p.Idx), val.T)))
 		default:
@@ -338,7 +389,6 @@ func (ex *Exec) load(st *State, p *Pointer, instr ssa.Instruction) SV {
 			st.assume(Eq(w, App(SStr, "f_sat", ex.sliceSeq(st, b), p.Idx)))
 			return Scalar(w)
 		case "byte":
-			ex.declareFun("f_bget", []string{SBytes, SInt}, SInt)
 			t := App(SInt, "f_bget", Select(st.heap["BMem"], b.Ref), Add(b.Off, p.Idx))
 			st.assume(And(Le(IntLit(0), t), Lt(t, IntLit(256))))
 			return Scalar(t)
@@ -353,6 +403,11 @@ func (ex *Exec) stepUnOp(st *State, v *ssa.UnOp) {
 		x := ex.val(st, v.X)
 		if x.K != KPtr {
 			panic(unsupported("load through non-pointer " + v.X.Name()))
+		}
+		if blk, ok := ex.byteBlock(st, x); ok {
+			// the array VALUE: a copy of the block's bytes
+			st.vals[v] = SV{K: KArray, Elem: "byte", T: ex.define(st, v.Name(), ex.sliceBytes(st, blk))}
+			return
 		}
 		sv := ex.load(st, x.Ptr, v)
 		if sv.K == KScalar {
@@ -437,10 +492,34 @@ func (ex *Exec) binop(st *State, v *ssa.BinOp) SV {
 			neg := Ite(Lt(x, IntLit(0)), IntLit(-1), IntLit(0))
 			return Scalar(ex.define(st, name, Ite(Ge(y, bits), neg, App(SInt, "div", x, App(SInt, "pow2m", y)))))
 		case token.AND, token.OR, token.XOR, token.AND_NOT:
+			// x & (2^k - 1) is x mod 2^k for every two's-complement or unsigned x
+			// (SMT mod is non-negative for a positive modulus)
+			if v.Op == token.AND {
+				for _, pr := range [][2]Term{{x, y}, {y, x}} {
+					if m, ok := modelInt(pr[1].S); ok && isAtom(pr[1].S) && m.Sign() >= 0 {
+						m1 := new(big.Int).Add(m, big.NewInt(1))
+						if m1.BitLen() <= 63 && new(big.Int).And(m1, m).Sign() == 0 {
+							return Scalar(ex.define(st, name, App(SInt, "mod", pr[0], T(SInt, m1.String()))))
+						}
+					}
+				}
+			}
 			fn := map[token.Token]string{token.AND: "f_bitand", token.OR: "f_bitor", token.XOR: "f_bitxor", token.AND_NOT: "f_bitandnot"}[v.Op]
 			ex.declareFun(fn, []string{SInt, SInt}, SInt)
 			r := ex.define(st, name, App(SInt, fn, x, y))
 			st.assume(ex.inRange(r, ct))
+			// for non-negative operands: and <= both, or >= both, or/xor <= sum
+			nn := And(Ge(x, IntLit(0)), Ge(y, IntLit(0)))
+			switch v.Op {
+			case token.AND:
+				st.assume(Implies(nn, And(Ge(r, IntLit(0)), Le(r, x), Le(r, y))))
+			case token.OR:
+				st.assume(Implies(nn, And(Ge(r, x), Ge(r, y), Le(r, Add(x, y)))))
+			case token.XOR:
+				st.assume(Implies(nn, And(Ge(r, IntLit(0)), Le(r, Add(x, y)))))
+			case token.AND_NOT:
+				st.assume(Implies(nn, And(Ge(r, IntLit(0)), Le(r, x))))
+			}
 			return Scalar(r)
 		}
 	}
@@ -531,6 +610,15 @@ func (ex *Exec) stepSlice(st *State, v *ssa.Slice) {
 		}
 		ex.safety(st, "slice", And(Le(IntLit(0), lo), Le(lo, hi), Le(hi, n)), v, "string slice bounds in range")
 		st.vals[v] = Scalar(ex.define(st, v.Name(), App(SStr, "f_substr", x.T, lo, hi)))
+	case x.K == KPtr && x.Ptr.Kind == PCell && isByteBlock(ex, st, x):
+		blk, _ := ex.byteBlock(st, x)
+		if hasHi {
+			hi = ex.scalar(st, v.High)
+		} else {
+			hi = blk.Len
+		}
+		ex.safety(st, "slice", And(Le(IntLit(0), lo), Le(lo, hi), Le(hi, blk.Cap)), v, "array slice bounds in range")
+		st.vals[v] = SV{K: KSlice, Elem: "byte", Ref: blk.Ref, Off: lo, Len: ex.define(st, v.Name()+"_len", Sub(hi, lo)), Cap: ex.define(st, v.Name()+"_cap", Sub(blk.Cap, lo))}
 	case x.K == KPtr && x.Ptr.Kind == PCell:
 		// slice of a local array (varargs): t[:]
 		at, ok := v.X.Type().(*types.Pointer).Elem().Underlying().(*types.Array)
@@ -601,6 +689,10 @@ func (ex *Exec) stepIndexAddr(st *State, v *ssa.IndexAddr) {
 		ex.safety(st, "index", And(Le(IntLit(0), idx), Lt(idx, x.Len)), v, "slice index in range")
 		b := x
 		st.vals[v] = SV{K: KPtr, Ptr: &Pointer{Kind: PSliceElem, Base: &b, Idx: idx}}
+	case x.K == KPtr && x.Ptr.Kind == PCell && isByteBlock(ex, st, x):
+		blk, _ := ex.byteBlock(st, x)
+		ex.safety(st, "index", And(Le(IntLit(0), idx), Lt(idx, blk.Len)), v, "array index in range")
+		st.vals[v] = SV{K: KPtr, Ptr: &Pointer{Kind: PSliceElem, Base: &blk, Idx: idx}}
 	case x.K == KPtr && (x.Ptr.Kind == PCell || x.Ptr.Kind == PGlobal):
 		at, ok := v.X.Type().(*types.Pointer).Elem().Underlying().(*types.Array)
 		if !ok {
@@ -615,6 +707,11 @@ func (ex *Exec) stepIndexAddr(st *State, v *ssa.IndexAddr) {
 	default:
 		panic(unsupported("IndexAddr on unsupported operand"))
 	}
+}
+
+func isByteBlock(ex *Exec, st *State, x SV) bool {
+	_, ok := ex.byteBlock(st, x)
+	return ok
 }
 
 func (ex *Exec) stepFieldAddr(st *State, v *ssa.FieldAddr) {
@@ -642,14 +739,43 @@ func (ex *Exec) stepDefer(st *State, v *ssa.Defer) {
 	for _, a := range v.Call.Args {
 		args = append(args, ex.val(st, a))
 	}
-	st.defers = append(st.defers, deferred{v, args})
+	d := deferred{call: v, args: args}
+	if mc, ok := v.Call.Value.(*ssa.MakeClosure); ok {
+		d.fn = ex.val(st, mc)
+	}
+	st.defers = append(st.defers, d)
 }
 
 // runDefers executes the deferred calls LIFO (simple form only: static or
 // interface calls with an assumed contract; results are discarded).
-func (ex *Exec) runDefers(st *State, at ssa.Instruction) {
-	for i := len(st.defers) - 1; i >= 0; i-- {
-		d := st.defers[i]
+func (ex *Exec) runDefers(st *State, at ssa.Instruction) []*State {
+	states := []*State{st}
+	defers := st.defers
+	st.defers = nil
+	for i := len(defers) - 1; i >= 0; i-- {
+		d := defers[i]
+		var next []*State
+		for _, s := range states {
+			if s.dead {
+				continue
+			}
+			next = append(next, ex.runDeferred(s, d)...)
+		}
+		states = next
+	}
+	if len(states) == 1 && states[0] == st {
+		return nil
+	}
+	if len(states) == 0 {
+		st.dead = true
+		return []*State{}
+	}
+	return states
+}
+
+// runDeferred executes one deferred call; the result is discarded.
+func (ex *Exec) runDeferred(st *State, d deferred) []*State {
+	{
 		cc := d.call.Call
 		var name string
 		if cc.IsInvoke() {
@@ -657,14 +783,35 @@ func (ex *Exec) runDefers(st *State, at ssa.Instruction) {
 		} else if f, ok := cc.Value.(*ssa.Function); ok {
 			name = f.String()
 		}
+		// a deferred function literal or function of this module: executed here
+		var callee *ssa.Function
+		var binds []SV
+		switch v := cc.Value.(type) {
+		case *ssa.Function:
+			callee = v
+		case *ssa.MakeClosure:
+			callee, _ = v.Fn.(*ssa.Function)
+			binds = d.fn.Tuple
+		}
+		if !cc.IsInvoke() && callee != nil && deps[name] == nil && (ex.p.isOurPkg(callee.Pkg) || (callee.Parent() != nil && ex.p.isOurPkg(callee.Parent().Pkg))) {
+			ex.curBinds = binds
+			forks, ok := ex.inlineCall(st, nil, callee, d.args)
+			ex.curBinds = nil
+			if ok {
+				return forks
+			}
+			ex.failObl("subset", "deferred-call/"+shortName(ex.p.contractName(callee)), "deferred call that cannot be executed inline (recursion, nested defer, go statement, or a function under contract)", ex.fnTags(), d.call)
+			ex.havocAll(st)
+			return []*State{st}
+		}
 		h := deps[name]
 		if h == nil {
 			ex.failObl("dep", "uncontracted-defer/"+name, "deferred call without an assumed contract", ex.fnTags(), d.call)
 			ex.havocAll(st)
-			continue
+			return []*State{st}
 		}
 		ex.noteDep(name)
 		_ = h.fn(ex, st, nil, d.args)
 	}
-	st.defers = nil
+	return []*State{st}
 }
